@@ -133,11 +133,11 @@ func (w *world) ctxFor(id int) context.Context {
 	case id == 0:
 		return context.Background()
 	case id == -1 && w.p.Deadlines:
-		c, cancel := context.WithDeadline(context.Background(), w.t0.Add(-time.Second))
+		c, cancel := sk.WithDeadline(context.Background(), w.t0.Add(-time.Second))
 		_ = cancel
 		return c
 	case id == -1:
-		c, cancel := context.WithCancel(context.Background())
+		c, cancel := sk.WithCancel(context.Background())
 		cancel()
 		return c
 	}
@@ -147,14 +147,14 @@ func (w *world) ctxFor(id int) context.Context {
 		return c
 	}
 	if w.p.Deadlines {
-		c, cancel := context.WithDeadline(context.Background(), w.t0.Add(time.Duration(id)*time.Hour))
+		c, cancel := sk.WithDeadline(context.Background(), w.t0.Add(time.Duration(id)*time.Hour))
 		w.ctxs[id], w.cancels[id] = c, cancel
 		if c.Err() != nil && w.cancelAt[id] == 0 {
 			w.cancelAt[id] = sk.Tick() // born after its deadline
 		}
 		return c
 	}
-	c, cancel := context.WithCancel(context.Background())
+	c, cancel := sk.WithCancel(context.Background())
 	w.ctxs[id], w.cancels[id] = c, cancel
 	return c
 }
@@ -673,7 +673,7 @@ var spinSink atomic.Int64
 
 func runStorm(p StormPlan) (vk.Outcome, error) {
 	var out vk.Outcome
-	ended, cancel := context.WithCancel(context.Background())
+	ended, cancel := sk.WithCancel(context.Background())
 	cancel()
 	rounds := p.Rounds
 	for round := 0; round < rounds; round++ {
@@ -799,7 +799,7 @@ func runParked(p ParkedPlan) (vk.Outcome, error) {
 	parkedErr := make(chan error, 1)
 	go func() { parkedErr <- sender.Send(bg, 999) }() // nobody reads: this one parks
 	time.Sleep(2 * time.Millisecond)
-	ended, cancel := context.WithCancel(bg)
+	ended, cancel := sk.WithCancel(bg)
 	cancel()
 	for _, probe := range p.Probes {
 		switch probe {
@@ -821,7 +821,7 @@ func runParked(p ParkedPlan) (vk.Outcome, error) {
 				return out, vk.Violf("trysend-expired-ctx", "TrySend with an already cancelled context returned %v", err)
 			}
 		case "send-timeout":
-			ctx, c := context.WithTimeout(bg, 5*time.Millisecond)
+			ctx, c := sk.WithTimeout(bg, 5*time.Millisecond)
 			var err error
 			ok := within(limit, func() { err = sender.Send(ctx, 1002) })
 			c()
